@@ -108,10 +108,92 @@ def membership_of_proper(kind, p, xkey):
     return ml if allowed else z3.Not(ml)
 
 
-TAGS = {'Boolean': 'Boolean', 'Number': 'Number', 'String': 'String', 'TypedArray': 'TypedArray', 'VoidUndefined': 'VoidUndefined'}
+TAGS = {'Boolean': 'Boolean', 'Number': 'Number', 'String': 'String', 'TypedArray': 'TypedArray', 'VoidUndefined': 'VoidUndefined',
+        'Mapping': 'Mapping', 'List': 'List', 'Map': 'Map', 'Set': 'Set'}
+DIAG_KINDS = ('Mapping', 'List', 'Map', 'Set')
 
 
-def run_case(eng, op, kind, a1, a2, n1, n2, frac=False, reach_twin=False, spec_override=None, max_paths=60000, shard=None):
+def run_diag_case(eng, op, kind, reach_twin=False, spec_override=None):
+    """the four diagram-backed tags: ProperSubtype::<kind>(Rc<Bdd>) operands with opaque diagrams (symbolic 16-bit tables, the BDD operations by
+    their layer-1 contracts).  Meaning of the resulting SubType = (tag, table): Proper(<kind>(d)) -> (kind, tt(d)); True(tag) -> (tag, all ones);
+    False(tag) -> (tag, zeros).  Obligation: tag = kind and table = the set operation of the operand tables."""
+    from checks import c06_bdd
+    from checks.c06_bdd import OpaqueBdd, tt_of, spec_contract, from_node_contract, fn_name
+    ix = eng.ix
+    c06_bdd.ENG = eng
+    eng.contracts.clear()
+    for o in ('union', 'intersect', 'diff', 'complement'):
+        eng.contracts[fn_name(ix, o)] = spec_contract(o)
+    eng.contracts[fn_name(ix, 'from_node')] = from_node_contract
+    target = ix.get(ix.traitimpl[('ProperSubtypeOps', 'Rc<ProperSubtype>', op)])
+    ex = Explorer(max_paths=20000)
+
+    def body(st):
+        x = OpaqueBdd(st, kind=kind)
+        p1 = Adt('ProperSubtype', kind, [RcV(Cell(x))])
+        r1 = RcV(Cell(p1))
+        if op == 'complement':
+            res = eng.call_fn(st, target, [Ptr(Cell(r1))])
+            p = res.cell.v if isinstance(res, RcV) else res
+            if p.variant != kind:
+                return ('tag', None, None, {})
+            return (~x.tt, tt_of(p.fields[0]), True, {'x': x.tt})
+        y = OpaqueBdd(st, kind=kind)
+        p2 = Adt('ProperSubtype', kind, [RcV(Cell(y))])
+        r2 = RcV(Cell(p2))
+        res = eng.call_fn(st, target, [Ptr(Cell(r1)), Ptr(Cell(r2))])
+        if res.variant != 'Ok':
+            return ('err', None, None, {})
+        sub = res.fields[0].cell.v
+        spec = spec_override or op
+        expect = {'union': x.tt | y.tt, 'intersect': x.tt & y.tt, 'diff': x.tt & ~y.tt}[spec]
+        info = {'x': x.tt, 'y': y.tt}
+        if sub.variant in ('True', 'False'):
+            if sub.fields[0].variant != kind:
+                return ('tag', None, None, info)
+            # layer 4 drops a `True` coming out of intersect / diff and a `False` out of union: for proper operands they must not occur
+            if (sub.variant == 'True' and op != 'union') or (sub.variant == 'False' and op == 'union'):
+                return ('kind', None, None, info)
+            return (expect, z3.BitVecVal(0xFFFF if sub.variant == 'True' else 0, 16), True, info)
+        p = sub.fields[0]
+        p = p.cell.v if isinstance(p, RcV) else p
+        if p.variant != kind:
+            return ('tag', None, None, info)
+        return (expect, tt_of(p.fields[0]), True, info)
+
+    results = ex.run(body)
+    sat, nq, t_s, samples = [], 0, 0.0, []
+    for st, (expect, got, ok, info) in results:
+        if isinstance(expect, str):
+            s = z3.Solver()
+            s.add(st.pc)
+            nq += 1
+            if s.check() != z3.unsat:
+                sat.append((st, s.model() if s.check() == z3.sat else None, {}, {'err': 'returned Err', 'tag': 'result carries the wrong tag',
+                                                                               'kind': 'intersect/diff returned the full type or union returned the empty type for proper operands'}[expect]))
+            continue
+        s = z3.Solver()
+        s.add(st.pc)
+        s.add(z3.BoolVal(True) if reach_twin else expect != got)
+        q0 = time.time()
+        r = s.check()
+        t_s += time.time() - q0
+        nq += 1
+        if r == z3.unknown:
+            raise Unmodelled('solver unknown')
+        if r == z3.sat:
+            sat.append((st, s.model(), {}, 'table of the result differs from the set operation'))
+        if not samples:
+            samples.append({'op': op, 'kind': kind, 'decisions': ''.join(map(str, st.decisions)), 'obligation': f'{z3.simplify(got)} == {z3.simplify(expect)}'[:240]})
+    return {'paths': len(results), 'obligation_queries': nq, 'feasibility_queries': ex.queries, 'solver_s': ex.solver_time + t_s, 'sat': sat, 'samples': samples}
+
+
+def run_case(eng, op, kind, a1, a2, n1, n2, frac=False, reach_twin=False, spec_override=None, max_paths=60000, shard=None, kinds_only=False):
+    """kinds_only (VoidUndefined): only the shape of the result is an obligation (right tag; no `True` out of intersect/diff and no `False` out of
+    union for proper operands - layer 4 relies on that); the membership obligation is skipped because `undefined <: void` makes "literal set" the
+    wrong meaning function for this tag."""
+    if kind in DIAG_KINDS:
+        return run_diag_case(eng, op, kind, reach_twin=reach_twin, spec_override=spec_override)
     ix = eng.ix
     target = ix.get(ix.traitimpl[('ProperSubtypeOps', 'Rc<ProperSubtype>', op)])
     ex = Explorer(max_paths=max_paths, shard=shard, shard_depth=8)
@@ -159,6 +241,11 @@ def run_case(eng, op, kind, a1, a2, n1, n2, frac=False, reach_twin=False, spec_o
             continue
         if tag_ok is None:
             sat.append((st, None, info, 'intersect/diff returned the full type or union returned the empty type for proper operands'))
+            continue
+        if kinds_only:
+            nq += 1
+            if not samples:
+                samples.append({'op': op, 'kind': kind, 'allowed': [a1, a2], 'lens': [n1, n2], 'decisions': ''.join(map(str, st.decisions)), 'obligation': 'shape of the result only'})
             continue
         s = z3.Solver()
         s.add(st.pc)
